@@ -288,12 +288,30 @@ def run_contract(name, tier, seed, limit_s, extra_cases=None):
             yield cs
         if gen is not None:
             yield from gen(tier, seed)
+    revisit = []      # pristine copies of the first few cases: evaluated once more after all the others (call history)
     try:
         for case in all_cases():
             if time.time() - t0 > limit_s:
                 out["truncated"] = True
                 break
             out["cases"] += 1
+            if len(revisit) < 6:
+                try:
+                    probe = case.get("call")
+                    # only statement oracles (pure functions of their ghost inputs): cases that set up files, or whose function
+                    # writes into its arguments, cannot be evaluated a second time from the same data
+                    noop = (lambda: None).__code__
+                    is_noop = probe is not None and getattr(probe, "__closure__", None) is None and \
+                        getattr(probe, "__code__", None) is not None and probe.__code__.co_code == noop.co_code and \
+                        probe.__code__.co_consts == noop.co_consts and not probe.__code__.co_names
+                    if is_noop and "ghost" in case and not case.get("args") and case.get("setup") is None:
+                        import copy as _copy
+                        keep = {k: _copy.deepcopy(v) for k, v in case.items() if k != "call"}
+                        if probe is not None:
+                            keep["call"] = probe
+                        revisit.append(keep)
+                except Exception:
+                    pass
             try:
                 status, detail = run_case(c, fn, case, glob)
             except Exception as e:
@@ -317,6 +335,19 @@ def run_contract(name, tier, seed, limit_s, extra_cases=None):
                     out["more_violations"] = out.get("more_violations", 0) + 1
     except Exception:
         out["error"] = "domain generator error: %s" % traceback.format_exc()[-800:]
+    # results must not depend on what was called before: the first cases again, after everything else ran in this process
+    if not out.get("error") and not out.get("truncated") and out["cases"] > len(revisit):
+        for case in revisit:
+            try:
+                status, detail = run_case(c, fn, case, glob)
+            except Exception:
+                break
+            out["revisited"] = out.get("revisited", 0) + 1
+            if status not in ("ok", "skipped"):
+                detail["case_key"] = "after the other cases of this run (call history): " + (case.get("key") or safe_repr((case.get("args"), case.get("kwargs"))))
+                detail["signature"] = case.get("sig")
+                if not any(v.get("case_key", "").endswith(detail["case_key"].split(": ", 1)[1]) for v in out["violations"]):
+                    out["violations"].append(detail)
     out["distinct"] = len(seen)
     out["wall_s"] = round(time.time() - t0, 2)
     return out
